@@ -13,15 +13,26 @@ Require Import Base.PyNum Base.Outcome Model.Values Model.Vocab Model.Types Mode
 Require Import Gen.GenScalars Gen.GenGates Gen.GenExcept Lemmas.AgreeThm Lemmas.RoundTrip Lemmas.ClassLemmas.
 Import ListNotations.
 
-Definition plain_shape (ft : fld * ty) : Prop :=
+(* what every field of a round-tripping class needs by itself: bound by construction, serialised, and a default (if any)
+   that is a value of the field's type *)
+Definition base_shape (ft : fld * ty) : Prop :=
   f_init (fst ft) = true /\ f_exclude (fst ft) = false /\
-  f_in_names (fst ft) = [f_name (fst ft)] /\ f_out_name (fst ft) = f_name (fst ft) /\
   match f_default (fst ft) with
   | DNone => True
   | DValue d | DFactory d => exists v, tc (snd ft) v = Ok d     (* the default is a value of the field's type *)
   end.
 
+(* the plain case: read and written under its own name only *)
+Definition plain_shape (ft : fld * ty) : Prop :=
+  base_shape ft /\ f_in_names (fst ft) = [f_name (fst ft)] /\ f_out_name (fst ft) = f_name (fst ft).
+
 Definition names (fs : list (fld * ty)) : list string := map (fun ft => f_name (fst ft)) fs.
+Definition out_names (fs : list (fld * ty)) : list string := map (fun ft => f_out_name (fst ft)) fs.
+
+(* the key a field is written under is read back as that very field (whatever renaming, aliases and other fields say) *)
+Definition reads_own_output (fs0 : list (fld * ty)) (ft : fld * ty) : Prop :=
+  find_field (VStr (f_out_name (fst ft))) fs0 = Some ft.
+
 
 (* ------------------------------------------------------------------ small facts about association lists *)
 
@@ -59,7 +70,7 @@ Qed.
 
 Lemma plain_accepts n ft : plain_shape ft -> field_accepts (VStr n) (fst ft) = String.eqb n (f_name (fst ft)).
 Proof.
-  intros (Pi & _ & Pn & _). unfold field_accepts. rewrite Pi, Pn. simpl.
+  intros ((Pi & _ & _) & Pn & _). unfold field_accepts. rewrite Pi, Pn. simpl.
   destruct (String.eqb n (f_name (fst ft))); reflexivity.
 Qed.
 
@@ -75,7 +86,7 @@ Proof.
 Qed.
 
 Lemma pos_args_positional (fs : list (fld * ty)) :
-  Forall plain_shape fs -> Forall (fun ft => f_kw_only (fst ft) = false) fs ->
+  Forall base_shape fs -> Forall (fun ft => f_kw_only (fst ft) = false) fs ->
   forall mn mx, (mn <= mx)%nat ->
   exists mn', pos_args_from (map fst fs) mn mx = (mn', mx + List.length fs)%nat /\ (mn' <= mx + List.length fs)%nat.
 Proof.
@@ -175,10 +186,10 @@ Section General.
   | rows_nil : rows [] [] [] []
   | rows_cons f t x d x' fs xs ds xs' :
       into_data t x = Ok d -> tc t d = Ok x' -> R x' x -> rows fs xs ds xs' ->
-      rows ((f, t) :: fs) ((f_name f, x) :: xs) ((f_name f, d) :: ds) ((f_name f, x') :: xs').
+      rows ((f, t) :: fs) ((f_name f, x) :: xs) ((f_out_name f, d) :: ds) ((f_name f, x') :: xs').
 
   Lemma rows_names fs xs ds xs' : rows fs xs ds xs' ->
-    map fst xs = names fs /\ map fst ds = names fs /\ map fst xs' = names fs /\ rel_fields xs xs'.
+    map fst xs = names fs /\ map fst ds = out_names fs /\ map fst xs' = names fs /\ rel_fields xs xs'.
   Proof.
     induction 1 as [|f t x d x' fs xs ds xs' _ _ Rx _ (IH1 & IH2 & IH3 & IH4)]; simpl; [repeat split; constructor|].
     rewrite IH1, IH2, IH3. repeat split; auto. constructor; auto.
@@ -187,7 +198,7 @@ Section General.
   Lemma rows_length fs xs ds xs' : rows fs xs ds xs' -> List.length ds = List.length fs.
   Proof. induction 1; simpl; auto. Qed.
 
-  Lemma fill_rows fs0 : Forall plain_shape fs0 -> NoDup (names fs0) ->
+  Lemma fill_rows fs0 : Forall base_shape fs0 -> NoDup (names fs0) ->
     Forall (fun ft => forall v x, tc (snd ft) v = Ok x -> rt_val (snd ft) x) fs0 -> forall vals,
     Forall (val_rt fs0) vals -> forall fs, (forall ft, In ft fs -> In ft fs0) -> forall fields,
     fill_defaults (map fst fs) vals = Some fields -> exists ds xs', rows fs fields ds xs'.
@@ -197,7 +208,7 @@ Section General.
     - destruct (fill_defaults (map fst fs) vals) as [rest|] eqn:Rr; [|discriminate].
       destruct (IH (fun ft Hin => Sub ft (or_intror Hin)) rest eq_refl) as (ds & xs' & Rs).
       assert (Hin : In (f, t) fs0) by (apply Sub; now left).
-      rewrite Forall_forall in P, Q. destruct (P _ Hin) as (Pi & Pe & Pn & Po & Pd). simpl in *.
+      rewrite Forall_forall in P, Q. destruct (P _ Hin) as (Pi & Pe & Pd). simpl in *.
       rewrite Pi in H. simpl in H.
       assert (X : exists x, fields = (f_name f, x) :: rest /\ rt_val t x).
       { destruct (field_get (f_name f) vals) as [x|] eqn:G.
@@ -207,23 +218,23 @@ Section General.
           inversion E; subst. exact Hr.
         - destruct (f_default f) as [|d|d]; try discriminate; inversion H; subst; exists d; (split; [reflexivity|]);
             destruct Pd as (v & E); exact (Q _ Hin v d E). }
-      destruct X as (x & -> & (d & x' & I & T & Rx)). exists ((f_name f, d) :: ds), ((f_name f, x') :: xs'). now constructor.
+      destruct X as (x & -> & (d & x' & I & T & Rx)). exists ((f_out_name f, d) :: ds), ((f_name f, x') :: xs'). now constructor.
   Qed.
 
   (* -------------------------------------------------------------- serialising *)
 
   Lemma class_into_rows attrs fs xs ds xs' :
-    rows fs xs ds xs' -> Forall plain_shape fs -> (forall n x, In (n, x) xs -> field_get n attrs = Some x) ->
+    rows fs xs ds xs' -> Forall base_shape fs -> (forall n x, In (n, x) xs -> field_get n attrs = Some x) ->
     class_into into_data fs attrs = Ok ds.
   Proof.
     induction 1 as [|f t x d x' fs xs ds xs' I T Rx Rw IH]; intros P A; simpl; [reflexivity|].
-    inversion P as [|? ? (Pi & Pe & Pn & Po & Pd) Pr]; subst. simpl in *.
-    rewrite Pe, (A (f_name f) x (or_introl eq_refl)), I, (IH Pr (fun n y Hin => A n y (or_intror Hin))), Po. reflexivity.
+    inversion P as [|? ? (Pi & Pe & Pd) Pr]; subst. simpl in *.
+    rewrite Pe, (A (f_name f) x (or_introl eq_refl)), I, (IH Pr (fun n y Hin => A n y (or_intror Hin))). reflexivity.
   Qed.
 
   (* -------------------------------------------------------------- reading the two forms back *)
 
-  Lemma struct_loop_rows fs0 ae : Forall plain_shape fs0 -> NoDup (names fs0) ->
+  Lemma struct_loop_rows fs0 ae : Forall (reads_own_output fs0) fs0 -> NoDup (names fs0) ->
     forall fs xs ds xs', rows fs xs ds xs' -> forall pre acc, fs0 = (pre ++ fs)%list -> map fst acc = names pre ->
     struct_try_loop tc fs0 ae (map strkey ds) acc = Ok (acc ++ xs')%list.
   Proof.
@@ -231,12 +242,12 @@ Section General.
     - simpl. now rewrite app_nil_r.
     - assert (Hin : In (f, t) fs0) by (rewrite E; apply in_or_app; right; now left).
       unfold strkey at 1. simpl fst. simpl snd.
-      rewrite (struct_loop_known fs0 ae (VStr (f_name f)) d (map strkey ds) acc f t x').
+      rewrite (struct_loop_known fs0 ae (VStr (f_out_name f)) d (map strkey ds) acc f t x').
       + rewrite (IH (pre ++ [(f, t)])%list (acc ++ [(f_name f, x')])%list).
         * now rewrite <- app_assoc.
         * now rewrite <- app_assoc.
         * unfold names in *. rewrite !map_app, A. reflexivity.
-      + now apply find_field_plain.
+      + rewrite Forall_forall in P. exact (P _ Hin).
       + unfold has_value. rewrite field_get_none; [reflexivity|].
         rewrite A. subst fs0. unfold names in N. rewrite map_app in N. simpl in N.
         apply NoDup_remove_2 in N. intros Hn. apply N. apply in_or_app. now left.
@@ -244,14 +255,14 @@ Section General.
   Qed.
 
   Lemma tuple_loop_rows fs xs ds xs' :
-    rows fs xs ds xs' -> Forall plain_shape fs -> tuple_try_loop tc fs (map snd ds) = Ok xs'.
+    rows fs xs ds xs' -> Forall base_shape fs -> tuple_try_loop tc fs (map snd ds) = Ok xs'.
   Proof.
     induction 1 as [|f t x d x' fs xs ds xs' I T Rx Rw IH]; intros P; simpl; [reflexivity|].
     inversion P as [|? ? (Pi & _) Pr]; subst. simpl in Pi. now rewrite Pi, T, (IH Pr).
   Qed.
 
   Lemma fill_from_rows fs xs ds xs' vals :
-    rows fs xs ds xs' -> Forall plain_shape fs -> (forall n x, In (n, x) xs' -> field_get n vals = Some x) ->
+    rows fs xs ds xs' -> Forall base_shape fs -> (forall n x, In (n, x) xs' -> field_get n vals = Some x) ->
     fill_defaults (map fst fs) vals = Some xs'.
   Proof.
     induction 1 as [|f t x d x' fs xs ds xs' I T Rx Rw IH]; intros P A; simpl; [reflexivity|].
@@ -271,8 +282,10 @@ Section General.
 
   Section OneClass.
     Variables (h : class_hdr) (fs : list (fld * ty)).
-    Hypothesis P : Forall plain_shape fs.
+    Hypothesis P : Forall base_shape fs.
     Hypothesis N : NoDup (names fs).
+    Hypothesis No : NoDup (out_names fs).                       (* no two fields are written under one key *)
+    Hypothesis Rd : Forall (reads_own_output fs) fs.             (* each key written is read back as its own field *)
     Hypothesis Q : Forall (fun ft => forall v x, tc (snd ft) v = Ok x -> rt_val (snd ft) x) fs.
 
     Lemma class_rows v x : tc (TClass h fs) v = Ok x ->
@@ -300,7 +313,7 @@ Section General.
         apply build_dict_strkeys. now rewrite Nd.
       - simpl. replace (pane_seq_gate_try KDict) with false by reflexivity.
         replace (pane_map_gate_try KDict) with true by reflexivity. rewrite FS.
-        rewrite (struct_loop_rows fs (c_allow_extra h) P N fs fields ds fields' Rw [] [] eq_refl eq_refl). simpl app.
+        rewrite (struct_loop_rows fs (c_allow_extra h) Rd N fs fields ds fields' Rw [] [] eq_refl eq_refl). simpl app.
         unfold construct. rewrite (fill_from_rows fs fields ds fields' fields' Rw P A'), Hk'. reflexivity.
     Qed.
 
@@ -325,6 +338,11 @@ End General.
 
 (* ------------------------------------------------------------------ R = eq: field types of the fragment *)
 
+(* the general class: any renaming, aliases and input names, as long as every field reads back the key it is written under *)
+Definition renamed_class (h : class_hdr) (fs : list (fld * ty)) : Prop :=
+  Forall (fun ft => base_shape ft /\ rt_ty (snd ft)) fs /\ NoDup (names fs) /\ NoDup (out_names fs) /\
+  Forall (reads_own_output fs) fs.
+
 Definition plain_field (ft : fld * ty) : Prop := plain_shape ft /\ rt_ty (snd ft).
 
 Definition plain_class (h : class_hdr) (fs : list (fld * ty)) : Prop :=
@@ -340,11 +358,59 @@ Proof. induction 1 as [|[n x] [n' x'] xs xs' [E1 E2] _ IH]; [reflexivity|]. simp
 Lemma eq_hook : forall hk xs xs' u, run_hook hk xs = ROk u -> rel_fields eq xs xs' -> exists u', run_hook hk xs' = ROk u'.
 Proof. intros hk xs xs' u H Rl. apply rel_eq in Rl. subst. eauto. Qed.
 
-Lemma plain_fields_rt fs : Forall plain_field fs ->
-  Forall plain_shape fs /\ Forall (fun ft => forall v x, tc (snd ft) v = Ok x -> rt_val eq (snd ft) x) fs.
+Lemma fragment_fields_rt fs : Forall (fun ft => base_shape ft /\ rt_ty (snd ft)) fs ->
+  Forall base_shape fs /\ Forall (fun ft => forall v x, tc (snd ft) v = Ok x -> rt_val eq (snd ft) x) fs.
 Proof.
   intros F. split; (eapply Forall_impl; [|exact F]); intros ft [S Rt]; [exact S|].
   intros v x E. destruct (roundtrip_core _ v x Rt E) as (d & I & T). exists d, x. auto.
+Qed.
+
+(* a plain class is a special case: its keys are its names *)
+Lemma plain_out_names fs : Forall plain_shape fs -> out_names fs = names fs.
+Proof. induction 1 as [|[f t] fs (_ & _ & Po) _ IH]; simpl; [reflexivity|]. simpl in Po. now rewrite Po, IH. Qed.
+
+Lemma plain_reads fs : Forall plain_shape fs -> NoDup (names fs) -> Forall (reads_own_output fs) fs.
+Proof.
+  intros P N. apply Forall_forall. intros [f t] Hin. unfold reads_own_output. simpl.
+  assert (Po : f_out_name f = f_name f).
+  { rewrite Forall_forall in P. destruct (P _ Hin) as (_ & _ & Po). exact Po. }
+  rewrite Po. now apply find_field_plain.
+Qed.
+
+Lemma plain_is_renamed h fs : Forall plain_field fs -> NoDup (names fs) -> renamed_class h fs.
+Proof.
+  intros F N.
+  assert (P : Forall plain_shape fs) by (eapply Forall_impl; [|exact F]; intros ft [S _]; exact S).
+  repeat split.
+  - eapply Forall_impl; [|exact F]. intros ft [(B & _) Rt]. split; assumption.
+  - exact N.
+  - now rewrite (plain_out_names fs P).
+  - now apply plain_reads.
+Qed.
+
+Theorem class_roundtrip_renamed h fs v x :
+  renamed_class h fs -> c_out_tuple h = false -> has_fmt FStruct h = true -> tc (TClass h fs) v = Ok x ->
+  exists fields setf d,
+    x = VInst (c_name h) fields setf /\
+    into_data (TClass h fs) x = Ok d /\
+    tc (TClass h fs) d = Ok (VInst (c_name h) fields (map fst fields)).
+Proof.
+  intros (F & N & No & Rd) OT FS H. destruct (fragment_fields_rt fs F) as [P Q].
+  destruct (class_roundtrip_gen eq eq_hook h fs P N No Rd Q v x OT FS H) as (fields & setf & d & fields' & -> & I & T & Rl).
+  apply rel_eq in Rl. subst fields'. eauto 6.
+Qed.
+
+Theorem class_roundtrip_renamed_tuple h fs v x :
+  renamed_class h fs -> c_out_tuple h = true -> has_fmt FTuple h = true -> Forall (fun ft => f_kw_only (fst ft) = false) fs ->
+  tc (TClass h fs) v = Ok x ->
+  exists fields setf d,
+    x = VInst (c_name h) fields setf /\
+    into_data (TClass h fs) x = Ok d /\
+    tc (TClass h fs) d = Ok (VInst (c_name h) fields (map fst fields)).
+Proof.
+  intros (F & N & No & Rd) OT FT K H. destruct (fragment_fields_rt fs F) as [P Q].
+  destruct (class_roundtrip_tuple_gen eq eq_hook h fs P N Q v x OT FT K H) as (fields & setf & d & fields' & -> & I & T & Rl).
+  apply rel_eq in Rl. subst fields'. eauto 6.
 Qed.
 
 Theorem class_roundtrip h fs v x :
@@ -353,11 +419,7 @@ Theorem class_roundtrip h fs v x :
     x = VInst (c_name h) fields setf /\
     into_data (TClass h fs) x = Ok d /\
     tc (TClass h fs) d = Ok (VInst (c_name h) fields (map fst fields)).
-Proof.
-  intros (F & N & OT & FS) H. destruct (plain_fields_rt fs F) as [P Q].
-  destruct (class_roundtrip_gen eq eq_hook h fs P N Q v x OT FS H) as (fields & setf & d & fields' & -> & I & T & Rl).
-  apply rel_eq in Rl. subst fields'. eauto 6.
-Qed.
+Proof. intros (F & N & OT & FS). apply class_roundtrip_renamed; auto. now apply plain_is_renamed. Qed.
 
 Theorem class_roundtrip_tuple h fs v x :
   plain_tuple_class h fs -> tc (TClass h fs) v = Ok x ->
@@ -365,8 +427,4 @@ Theorem class_roundtrip_tuple h fs v x :
     x = VInst (c_name h) fields setf /\
     into_data (TClass h fs) x = Ok d /\
     tc (TClass h fs) d = Ok (VInst (c_name h) fields (map fst fields)).
-Proof.
-  intros (F & N & OT & FT & K) H. destruct (plain_fields_rt fs F) as [P Q].
-  destruct (class_roundtrip_tuple_gen eq eq_hook h fs P N Q v x OT FT K H) as (fields & setf & d & fields' & -> & I & T & Rl).
-  apply rel_eq in Rl. subst fields'. eauto 6.
-Qed.
+Proof. intros (F & N & OT & FT & K). apply class_roundtrip_renamed_tuple; auto. now apply plain_is_renamed. Qed.
